@@ -1,6 +1,6 @@
 (* Properties_C05.v — property C05: checkers treat their input as read-only. Statements only; each closed by [exact]. *)
 From GC Require Import Base Model_Inventory Model_Walk Model_Heap Proofs_Heap Review_MutSites.
-From GCgen Require Import MutationSites.
+From GCgen Require Import MutationSites StateInventory.
 
 (* frame law per rewriting shape: every cell allocated before the checker ran is unchanged afterwards *)
 Theorem C05_boolExprSimplify_frame : forall fuel h root id, (id < next h)%N ->
@@ -97,6 +97,23 @@ Theorem C05_every_writer_copies :
   forallb (fun m => file_has_copy (mf_file m) || String.eqb (mf_file m) "evalOrder_checker.go") mutation_sites = true.
 Proof. vm_compute. reflexivity. Qed.
 Print Assumptions C05_every_writer_copies.
+
+(* the shared context is written only through the integrator's API (SetPackageInfo / SetGoVersion / SetFileInfo and their
+   helpers), never from code that runs during Check: a cache, counter or table added to linter.Context and written by a
+   checker or by CheckerContext breaks this obligation (re-proved over the regenerated scratch-state inventory) *)
+Definition integrator_api : list string :=
+  ["Context.SetPackageInfo"; "Context.SetGoVersion"; "Context.SetFileInfo"; "resolvePkgObjects"; "resolvePkgRenames"].
+Eval vm_compute in
+  (flat_map (fun s => if String.eqb (s_pkg s) "linter" && String.eqb (s_name s) "Context"
+                      then flat_map (fun f => map (fun w => (f_name f, w)) (filter (fun w => let 'W m _ _ := w in negb (mem m integrator_api)) (live_writes f))) (s_fields s)
+                      else []) state_inventory).
+Theorem C05_context_written_only_by_integrator :
+  forallb (fun s => negb (String.eqb (s_pkg s) "linter" && String.eqb (s_name s) "Context")
+                    || forallb (fun f => forallb (fun w => let 'W m _ _ := w in mem m integrator_api) (live_writes f)) (s_fields s))
+          state_inventory = true
+  /\ existsb (fun s => String.eqb (s_pkg s) "linter" && String.eqb (s_name s) "Context") state_inventory = true.
+Proof. vm_compute. auto. Qed.
+Print Assumptions C05_context_written_only_by_integrator.
 
 Theorem C05_inventory_sane :
   (10 <=? N.of_nat (length mutation_sites))%N = true
